@@ -334,6 +334,20 @@ def run(ctx):
         m, kind_of, ae = union(parts, extra)
         A.group(m, kind_of, ae, "standard", 4, "G6-multifragment")
         ctx.count("multifragment.groups")
+    for i in range(6 if quick else 150):
+        # large inputs: several hundred pi-atoms in one call (many small rings, connected or not) with one to three
+        # odd-ring systems somewhere among them - first, in the middle, last
+        parts = [standard_system(rng, nrings=rng.choice([1, 1, 2]), sizes=(6,), chords=0) for _ in range(rng.randint(40, 70))]
+        for _ in range(rng.choice([1, 2, 3])):
+            odd = standard_system(rng, nrings=rng.choice([3, 4, 6]), sizes=rng.choice([(5, 6, 6, 7), (5, 6, 6), (5, 7)]), chords=0)
+            parts.insert(rng.choice([0, len(parts), rng.randrange(len(parts) + 1)]), odd)
+        if rng.random() < 0.5:
+            m, kind_of, ae = union(parts)
+        else:
+            m, kind_of, ae = link_systems(rng, parts)
+        A.group(m, kind_of, ae, "standard", 3, "G6-large")
+        ctx.count("large.groups")
+        ctx.count("large.pi_atoms>256", 1 if len(pi_set(kind_of)[0]) > 256 else 0)
     for i in range(60 if quick else 2000):
         # biaryl / fluorene-type: ring systems joined by explicit single bonds between aromatic atoms, also as ring
         # closures with '-' on one digit only; larger even rings so that the single bond COULD be double in a matching
